@@ -167,7 +167,73 @@ def _lcm_models():
     return m
 
 
+# ---------------------------------------------------------------------------- average_expected_demand: which grid it averages over
+
+class _Pat(NativeModel):
+    def __init__(self, n):
+        self.multipliers = [1.0] * n
+
+
+class _WnAvg(NativeModel):
+    def __init__(self, opts, lens):
+        self.options = opts
+        self._p = [("pat%d" % i, _Pat(n)) for i, n in enumerate(lens)]
+
+    def patterns(self):
+        return list(self._p)
+
+
+class _Mean(NativeModel):
+    def __init__(self, log):
+        self.log = log
+
+    def mean(self, axis=None):
+        self.log.append(("mean", axis))
+        return "mean over the rows"
+
+
+def _avg_case(lens, pts):
+    """pattern lengths and the pattern timestep concrete (the common period is computed by the real _lcml), pattern start and
+    the report timestep symbolic and unrelated: the average is taken over exactly one common period of all patterns (and of a day), sampled
+    once per pattern step, starting at the pattern start"""
+    def build(cx):
+        pstart, rstep = cx.int("pattern_start"), cx.int("report_timestep")
+        cx.assume(cx.t(pstart) >= 0, cx.t(rstep) >= 1)
+        opts = types.SimpleNamespace(time=types.SimpleNamespace(pattern_start=pstart, pattern_timestep=pts, report_timestep=rstep, hydraulic_timestep=rstep, duration=0),
+                                     hydraulic=types.SimpleNamespace(demand_multiplier=1.0))
+        wn = _WnAvg(opts, lens)
+        log = []
+        cx.log = log
+        cx.interp.models.register(H.expected_demand, lambda interp, args, kw: (log.append(("expected_demand", args, kw)), _Mean(log))[1],
+                                  verified_by="wntr.metrics.hydraulic:expected_demand (this file)")
+        cx.target(H.average_expected_demand, wn)
+
+        def post(out):
+            if not out.returned:
+                return []
+            period = 86400
+            for n in lens:
+                period = period * (n * pts) // math.gcd(period, n * pts)
+            calls = [c for c in log if c[0] == "expected_demand"]
+            ok_shape = len(calls) == 1 and len(calls[0][1]) == 4 and calls[0][1][0] is wn and ("mean", 0) in log and out.value == "mean over the rows"
+            if not ok_shape:
+                return [("averages_one_expected_demand_table_over_its_rows", False)]
+            _, st, en, step = calls[0][1]
+            # expected_demand's grid is start, start + step, ... <= end: n_samples * step == period, first sample at the pattern start
+            return [("averages_one_expected_demand_table_over_its_rows", True),
+                    ("first_sample_at_the_pattern_start", library.as_int(st) == cx.t(pstart)),
+                    ("one_sample_per_pattern_step", library.as_int(step) == pts),
+                    ("samples_cover_exactly_one_common_period", library.as_int(en) == cx.t(pstart) + period - pts)]
+        cx.ensure(post)
+    return Case("pattern_lengths=%s,pattern_timestep=%d" % (list(lens), pts), build, crosscheck=False)
+
+
+_avg_cases = [_avg_case(l, p) for l, p in (((24,), 3600), ((12,), 7200), ((7,), 3600), ((5, 3), 1800), ((24, 7), 3600), ((), 900))]
+
 CONTRACTS = [
+    Contract("wntr.metrics.hydraulic:average_expected_demand", P, _avg_cases,
+             note="pattern counts / lengths and the pattern timestep of the listed cases are concrete; pattern start and report timestep are symbolic",
+             trusted=["pandas DataFrame.mean(axis=0) is the mean over the rows (time)", "RegInv (C14): wn.patterns() enumerates the patterns"]),
     Contract("wntr.metrics.hydraulic:expected_demand", P, [_expected_demand_case(False), _expected_demand_case(True)], models=_models,
              trusted=["Demands.at contract (contracts/c20_demand.py)", "RegInv (C14): wn.junctions() enumerates the junctions"]),
     Contract("wntr.metrics.hydraulic:_gcd", P, [_gcd_case()],
@@ -239,7 +305,8 @@ def _network_metrics(tier, seed):
     logging.disable(logging.CRITICAL)
     root = _repo()
     evals, distinct, failures, samples = 0, set(), [], []
-    nets = ["examples/networks/Net1.inp", "examples/networks/Net3.inp"] + (["examples/networks/Net2.inp"] if tier == "thorough" else [])
+    nets = ["examples/networks/Net1.inp", "examples/networks/Net3.inp", "wntr/tests/networks_for_testing/Anytown_multipointcurves.inp"] + \
+        (["examples/networks/Net2.inp"] if tier == "thorough" else [])      # Anytown_multipointcurves: a tank with a volume curve
     for rel in nets:
         wn = wntr.network.WaterNetworkModel(os.path.join(root, rel))
         wn.options.time.duration = 6 * 3600
@@ -277,7 +344,7 @@ def _network_metrics(tier, seed):
             if not ok:
                 failures.append(dict(net=rel, check="population = round(average expected demand / R)"))
         # pump power / energy / cost
-        if wn.num_pumps:
+        if wn.num_pumps and not any(pump.efficiency is not None for _, pump in wn.pumps()):      # pump efficiency curves: NotImplementedError in WNTR
             fl, hd = res.link["flowrate"].loc[:, wn.pump_name_list], res.node["head"]
             pw = wntr.metrics.pump_power(fl, hd, wn)
             en = wntr.metrics.pump_energy(fl, hd, wn)
@@ -299,11 +366,15 @@ def _network_metrics(tier, seed):
             tc = wntr.metrics.tank_capacity(pr, wn)
             for tn, tank in wn.tanks():
                 if tank.vol_curve is None:
-                    ok = np.allclose(tc[tn].astype(float), pr[tn] / tank.max_level)
-                    evals += 1
-                    distinct.add((rel, "tank_capacity", tn))
-                    if not ok:
-                        failures.append(dict(net=rel, check="tank_capacity = volume(level)/volume(max_level)", tank=tn))
+                    ref_tc = pr[tn] / tank.max_level
+                else:
+                    pts_ = np.array(tank.vol_curve.points)
+                    ref_tc = np.interp(pr[tn].values.astype(float), pts_[:, 0], pts_[:, 1]) / float(np.interp(tank.max_level, pts_[:, 0], pts_[:, 1]))
+                ok = np.allclose(tc[tn].astype(float), ref_tc)
+                evals += 1
+                distinct.add((rel, "tank_capacity", tn))
+                if not ok:
+                    failures.append(dict(net=rel, check="tank_capacity = volume(level)/volume(max_level)", tank=tn, volume_curve=tank.vol_curve_name))
         # todini
         Pstar = 15.0
         td = wntr.metrics.todini_index(res.node["head"], res.node["pressure"], res.node["demand"], res.link["flowrate"], wn, Pstar)
